@@ -310,3 +310,20 @@ PROPS["C05"] = {
     "assumptions": ["the concurrent half is a seeded stress search: the harness does not own the scheduler"],
     "floors": [("sequential", "sequence/beyond-tail", 500), ("concurrent", "rounds-running-past-the-tail", 50)],
 }
+
+PROPS["C09"] = {
+    "prepare": [prep_corpus],
+    "units": [
+        {"name": "results", "pkg": "./zverif/c09", "run": "^TestVerifC09$", "timeout": {"quick": 300, "thorough": 2400},
+         "shards": {"quick": 1, "thorough": 8}},
+    ],
+    "rule": "results: for every corpus function with results (33 result types) rapid picks per result how the value is supplied to Return: ordinary value "
+            "of the declared type (incl. concrete values of several dynamic types for interface results), zero, untyped nil, typed nil, layout-identical "
+            "stand-in struct / pointer to one, a value of a different size, a same-size value of another scalar type (counted, not judged). Oracle: the "
+            "caller receives bit-exactly the supplied value as the declared type (nil -> typed zero for pointer/interface/slice/map/chan/func, nil error == nil, "
+            "dynamic types intact, stand-in bytes / address identical); a wrong-size value makes Return panic. conditions: nil / typed nil / "
+            "stand-in values given to When match equal arguments of the declared type and not different ones. Distinct by (function, supply kinds, codes).",
+    "assumptions": ["same-size values of a different non-struct type are outside the enumerated guarantees"],
+    "floors": [("results", "rejected-wrong-size", 300), ("results", "delivered/untyped-nil/func", 20), ("results", "delivered/standin/struct", 50),
+               ("results", "delivered/standin-ptr/ptr", 5), ("results", "delivered/untyped-nil/interface", 50)],
+}
